@@ -78,6 +78,10 @@ func ToCatalog(rows []any, ident string, identRight string, joinExpr sqlparser.E
 			if err != nil {
 				return nil, err
 			}
+			if number, ok := reader.(float64); ok && number == 0 {
+				// -0 and 0 are equal and must share a key
+				reader = float64(0)
+			}
 			text := fmt.Sprintf("%v", reader)
 			buffer.WriteString(strconv.Itoa(len(text)))
 			buffer.WriteString(":")
